@@ -5,6 +5,7 @@ import (
 	"errors"
 	"fmt"
 	"io"
+	"io/ioutil"
 	"runtime"
 	"strings"
 	"sync"
@@ -239,7 +240,7 @@ func (r *chunkReader) WriteTo(writer io.Writer) (n int64, err error) {
 		wg.Add(1)
 		i := int64(index) * int64(r.leafSize-r.truncation)
 		concurrencyControl <- struct{}{}
-		go func(writeAt int64, writer io.WriterAt, key Key, cafs storage.Store, wg *sync.WaitGroup) {
+		go func(index int, writeAt int64, writer io.WriterAt, key Key, cafs storage.Store, wg *sync.WaitGroup) {
 			defer func() {
 				<-concurrencyControl
 				wg.Done()
@@ -249,18 +250,43 @@ func (r *chunkReader) WriteTo(writer io.Writer) (n int64, err error) {
 				errC <- err
 				return
 			}
+			defer rdr.Close()
 			w := &cafsWriterAt{
 				w:      writer,
 				offset: writeAt,
 			}
-			// TODO(fred): nice - io.CopyBuffer is probably better to get the copy working buffer aligned to leaf buffers
-			written, err := io.Copy(w, rdr) // io.WriteAt is expected to be thread safe.
+			if !r.withVerifyHash {
+				// TODO(fred): nice - io.CopyBuffer is probably better to get the copy working buffer aligned to leaf buffers
+				written, err := io.Copy(w, rdr) // io.WriteAt is expected to be thread safe.
+				if err != nil {
+					errC <- err
+					return
+				}
+				writtenC <- written
+				return
+			}
+			// the leaf is verified against its key before any of it is handed to the writer
+			leaf, err := ioutil.ReadAll(rdr)
 			if err != nil {
 				errC <- err
 				return
 			}
-			writtenC <- written
-		}(i, w, key, r.fs, &wg)
+			// NOTE: we follow the checksumming scheme adopted by the writer, like ReadAt does
+			nodeOffset, isLastNode := index+1, false
+			if index+1 == len(r.keys) && uint32(len(leaf)) != r.leafSize {
+				nodeOffset, isLastNode = index, true
+			}
+			if err = r.verifyHash(key, leaf, nodeOffset, isLastNode); err != nil {
+				errC <- err
+				return
+			}
+			written, err := w.Write(leaf)
+			if err != nil {
+				errC <- err
+				return
+			}
+			writtenC <- int64(written)
+		}(index, i, w, key, r.fs, &wg)
 	}
 	var count int
 	var written int64
